@@ -81,19 +81,34 @@ namespace lang
             v.size_ = 0;
         }
 
-        constexpr fixed_vector operator=(const fixed_vector& v)
+        constexpr fixed_vector& operator=(const fixed_vector& v)
         {
-            return fixed_vector(v);
+            if (this != &v)
+            {
+                *this = fixed_vector(v);
+            }
+
+            return *this;
         }
 
-        constexpr fixed_vector operator=(fixed_vector&& v)
+        constexpr fixed_vector& operator=(fixed_vector&& v)
         {
-            return fixed_vector(std::move(v));
+            if (this != &v)
+            {
+                size_ = v.size_;
+                capacity_ = v.capacity_;
+                data_ = std::move(v.data_);
+                v.size_ = 0;
+            }
+
+            return *this;
         }
 
-        constexpr fixed_vector operator=(const std::initializer_list<value_type>& l)
+        constexpr fixed_vector& operator=(const std::initializer_list<value_type>& l)
         {
-            return fixed_vector(l.size(), l);
+            *this = fixed_vector(l.size(), l);
+
+            return *this;
         }
 
         ~fixed_vector() = default;
